@@ -221,6 +221,25 @@ pub fn run(ctx: &Ctx) -> i32 {
                    "nineteen_digit_decimal_significands": pairs.iter().filter(|(w, _)| *w < 10_000_000_000_000_000_000).count()}),
         );
     }
+    // 1d. the second-product variant of the same condition (the low bits of the first product's high word
+    // all ones AND the corrected low word u64::MAX): exhaustive number-theoretic search over every table
+    // entry and every 64-bit significand; any pair found is checked like the others
+    {
+        let pairs = gen::lemire_second_product_pairs();
+        for &(w, q) in pairs.iter() {
+            for fmt in [Fmt::F64, Fmt::F32] {
+                for t in [false, true] {
+                    let mut st = crate::runner::Stats::default();
+                    if let Err(f) = check_one(fmt, if t { w.min(u64::MAX - 1) } else { w }, q, t, &mut st) {
+                        rep.violations.push((None, f));
+                    }
+                    rep.stats.merge(st);
+                    rep.stats.evaluations += 1;
+                }
+            }
+        }
+        rep.extra.insert("lemire_second_product_search".into(), json!({"method": "smallest x with l <= a*x mod 2^137 (2^166 for f32) <= r, iterated over [2^63, 2^64), all 651 table entries", "pairs_found": pairs.len(), "exhaustive": true}));
+    }
     // 2. generated cases
     let cases = ctx.cases(1_500_000, 100_000_000);
     let r = run_recipes(ctx.seed, cases, ctx.threads, 11, |r, stats| {
